@@ -103,6 +103,12 @@ class AsyncioTransportStreamSocketAdapter(AsyncStreamTransport):
                 self.__transport.close()
         try:
             await asyncio.shield(self.__protocol._get_close_waiter())
+        except asyncio.CancelledError:
+            # transport.close() waits for the write buffer to be flushed, which never happens if the peer does not read.
+            # aclose() has been cancelled (e.g. aclose_forcefully()): close abruptly, as documented.
+            if not self.__protocol._get_close_waiter().done():
+                self.__transport.abort()
+            raise
         except OSError:
             pass
 
